@@ -680,10 +680,16 @@ func parseTLV(data []byte) (result []interface{}, err error) {
 
 		case tlvSHAPE:
 			shape := new(headPayloadShape)
+			nvalues := 1
 			for i := 2; i < tlvsize; i += 2 {
 				d := int16(binary.BigEndian.Uint16(data[i:]))
 				if d > 0 {
 					shape.Sizes = append(shape.Sizes, d)
+					// A payload has at most 65535 bytes. Stopping here also keeps the product within an int.
+					nvalues *= int(d)
+					if nvalues > math.MaxUint16 {
+						return result, fmt.Errorf("shape TLV sizes multiply to more than %d values per frame", math.MaxUint16)
+					}
 				}
 			}
 			if len(shape.Sizes) == 0 {
